@@ -588,7 +588,10 @@ impl Template {
 
         // For full templates, we behave as if there was a trailing newline if we encounter
         // the end of input. See #611.
-        with_trailing_newline |= !is_partial && continuation.is_empty();
+        with_trailing_newline |= !is_partial
+            && continuation
+                .trim_start_matches(support::str::whitespace_matcher)
+                .is_empty();
 
         if with_trailing_newline {
             let with_leading_newline =
